@@ -158,11 +158,6 @@ Section Success.
   Lemma Done_root_links : h_lnk h' !! tid tc = Some (None, None).
   Proof. destruct (ck_top _ _ _ C) as [[_ H] _]. exact H. Qed.
 
-  Lemma Done_KeysReadable t : KeysReadable h F -> copy_of h' t tc ->
-    (forall i d ks b, (i, d, ks) ∈ flat_t t -> rd_key d = Some b -> is_const d = true ->
-       exists s, str_at h b s /\ existsb (Z.eqb 0) s = true) ->
-    True.
-  Proof. done. Qed.
 End Success.
 
 (** * a subtree of the forest as source *)
@@ -260,6 +255,41 @@ Proof. intros H i d He. by eapply H. Qed.
 Section Copy.
   Variable oracle : nat -> bool.
 
+  (** the general form: the source is whatever the heap READS as from the item ([src_t]: the
+      children of a reference node are the chain its [child] pointer designates) *)
+  Theorem dup_copy_src h F t :
+    WF h F -> Closed h -> src_t h (Pos.to_nat (h_next h)) (Z.to_nat c_CJSON_CIRCULAR_LIMIT) t ->
+    exists r h',
+      cJSON_Duplicate oracle (Some (tid t)) true h = Ret (r, h') /\
+      ((r = None /\ WF h' F /\ (NoLeak h F -> NoLeak h' F) /\
+        h_lnk h' = h_lnk h /\ h_dat h' = h_dat h /\ h_str h' = h_str h /\ h_live h' = h_live h /\
+        h_hooks h' = h_hooks h /\ lib_live h' = lib_live h /\ Closed h' /\ (complete t -> ofail oracle h h')) \/
+       (exists tc, r = Some (tid tc) /\ WF h' (F ++ [tc]) /\ (NoLeak h F -> NoLeak h' (F ++ [tc])) /\
+          copy_of h' t tc /\ complete t /\
+          Frame (nids (flat_t tc)) (sids (flat_t tc)) h h' /\
+          h_lnk h' !! tid tc = Some (None, None) /\
+          (forall b, b ∈ owned F -> b ∉ owned [tc]) /\
+          (forall b, b ∈ owned [tc] -> (h_next h <= b)%positive /\ b ∉ h_live h) /\
+          oclean oracle h h')).
+  Proof.
+    intros W C Hsrc.
+    destruct (cJSON_Duplicate_sim oracle h t C Hsrc) as (r & h' & Hrun & [(-> & Fr & Hof)|(tc & -> & HD)]).
+    - exists None, h'. split; [done|]. left.
+      destruct (Frame_nil_eq _ _ Fr) as (E1 & E2 & E3 & E4 & E5 & E6).
+      split_and!; try done.
+      + exact (Failed_WF _ _ _ W Fr).
+      + intros NL. exact (Failed_NoLeak _ _ _ NL Fr).
+      + apply Fr.
+    - destruct HD as (Fr & ND & Ch & R & Hcp & Hcomp & Hcl).
+      exists (Some (tid tc)), h'. split; [done|]. right. exists tc. split_and!; try done.
+      + eapply Done_WF; eassumption.
+      + eapply Done_NoLeak; eassumption.
+      + eapply Done_root_links; eassumption.
+      + eapply Done_disjoint; eassumption.
+      + eapply Done_fresh; eassumption.
+  Qed.
+
+  (** a subtree of the forest without borrowed children *)
   Theorem dup_copy h F p t :
     WF h F -> Closed h -> find_tree p F = Some t ->
     strs_readable h t -> no_borrowed t -> height t <= Z.to_nat c_CJSON_CIRCULAR_LIMIT ->
@@ -278,21 +308,12 @@ Section Copy.
   Proof.
     intros W C Hp Hs Hb Hh. apply find_tree_Some in Hp as [Hn <-].
     pose proof (src_t_of_WF h F W t _ Hn Hs Hb Hh) as Hsrc.
-    destruct (cJSON_Duplicate_sim oracle h t C Hsrc) as (r & h' & Hrun & [(-> & Fr & Hof)|(tc & -> & HD)]).
-    - exists None, h'. split; [done|]. left.
-      destruct (Frame_nil_eq _ _ Fr) as (E1 & E2 & E3 & E4 & E5 & E6).
-      split_and!; try done.
-      + exact (Failed_WF _ _ _ W Fr).
-      + intros NL. exact (Failed_NoLeak _ _ _ NL Fr).
-      + apply Fr.
-      + apply Hof. by apply no_borrowed_complete.
-    - destruct HD as (Fr & ND & Ch & R & Hcp & Hcomp & Hcl).
-      exists (Some (tid tc)), h'. split; [done|]. right. exists tc. split_and!; try done.
-      + eapply Done_WF; eassumption.
-      + eapply Done_NoLeak; eassumption.
-      + eapply Done_root_links; eassumption.
-      + eapply Done_disjoint; eassumption.
-      + eapply Done_fresh; eassumption.
+    destruct (dup_copy_src h F t W C Hsrc) as (r & h' & Hrun & [H|H]).
+    - exists r, h'. split; [done|]. left.
+      destruct H as (H1 & H2 & H3 & H4 & H5 & H6 & H7 & H8 & H9 & H10 & H11).
+      split_and!; try done. apply H11. by apply no_borrowed_complete.
+    - exists r, h'. split; [done|]. right.
+      destruct H as (tc & H1 & H2 & H3 & H4 & _ & H5 & H6 & H7 & H8 & H9). exists tc. by split_and!.
   Qed.
 End Copy.
 
